@@ -461,7 +461,9 @@ def run_history(case, prefix):
                 m.taint.add(m.key(*m.last_mux))
             after = _store_snapshot(rig.node)
             for k in set(before) | set(after):
-                if before.get(k) != after.get(k) and k not in m.taint:
+                # (an object of kind VAR is one entry whatever sub-index the frame names; the library
+                #  files the bytes under the sub-index given)
+                if before.get(k) != after.get(k) and k not in m.taint and m.key(*k) not in m.taint:
                     bad("junk/changed-store", f"{tag}: entry {k[0]:04x}:{k[1]:02x} changed from "
                                               f"{before.get(k)} to {after.get(k)}")
             for e in rig.wlog[wl:]:
